@@ -1,6 +1,10 @@
 package refmodel
 
 import (
+	"encoding/json"
+	"strconv"
+	"strings"
+
 	"verif/internal/jsonv"
 )
 
@@ -56,6 +60,14 @@ func (m *Model) expect(sn any, v any, p Pos) any {
 		return out
 	case map[string]any:
 		return m.expectObject(s, x, p)
+	case string:
+		if f, _ := s["format"].(string); f == "time" && m.dev("TIME_FRACTION_DROPPED") {
+			// as built: SerializableTime prints with layout 15:04:05, dropping fractional seconds
+			if i := strings.IndexByte(x, '.'); i >= 0 {
+				m.fire("TIME_FRACTION_DROPPED")
+				return x[:i]
+			}
+		}
 	}
 	return v
 }
@@ -136,6 +148,20 @@ func (m *Model) expectObject(s S, v map[string]any, p Pos) any {
 		}
 		// absent, or null for a nullable property: no value
 	}
+	if hasAP && m.dev("UNTYPED_ADDL_DROPPED") {
+		// as built: without a single primitive/object type the synthetic field has no default value, hence (absent other
+		// validators) no unmarshaler is generated and undeclared keys are silently dropped
+		untyped := false
+		if b, isBool := ap.(bool); isBool {
+			untyped = b
+		} else if am, ok := ap.(map[string]any); ok {
+			untyped = len(typeList(am)) == 0
+		}
+		if untyped {
+			m.fire("UNTYPED_ADDL_DROPPED")
+			hasAP = false
+		}
+	}
 	if hasAP {
 		if b, isBool := ap.(bool); !isBool || b {
 			add := map[string]any{}
@@ -145,6 +171,10 @@ func (m *Model) expectObject(s S, v map[string]any, p Pos) any {
 				}
 				if isBool {
 					add[k] = val
+				} else if am, ok := ap.(map[string]any); ok && m.dev("ADDL_NONPRIMITIVE_RAW") && rawAP(am) {
+					// as built: additional properties of type object / array are kept as the raw generic value (numbers as float64)
+					m.fire("ADDL_NONPRIMITIVE_RAW")
+					add[k] = rawValue(val)
 				} else {
 					pp := p
 					pp.Kind = "addl"
@@ -157,4 +187,34 @@ func (m *Model) expectObject(s S, v map[string]any, p Pos) any {
 		}
 	}
 	return out
+}
+
+func rawAP(ap S) bool {
+	tl := typeList(ap)
+	return len(tl) == 1 && (tl[0] == "object" || tl[0] == "array")
+}
+
+// rawValue is what encoding/json yields for interface{}: numbers become float64.
+func rawValue(v any) any {
+	switch x := v.(type) {
+	case json.Number:
+		f, err := x.Float64()
+		if err != nil {
+			return v
+		}
+		return json.Number(strconv.FormatFloat(f, 'g', -1, 64))
+	case []any:
+		o := make([]any, len(x))
+		for i := range x {
+			o[i] = rawValue(x[i])
+		}
+		return o
+	case map[string]any:
+		o := map[string]any{}
+		for k, e := range x {
+			o[k] = rawValue(e)
+		}
+		return o
+	}
+	return v
 }
